@@ -152,7 +152,8 @@ impl Tracker for ExecTracker {
 }
 
 #[derive(Clone, Debug, Serialize, Deserialize, PartialEq, Eq, Hash)]
-pub enum IStep { Session, BottomUp, ChangeT { id: u8, val: Option<u8> }, ChangeA { id: u8, val: Option<u8> }, ChangeB { id: u8, val: Option<u8> }, ChangeZ { which: u8, val: Option<u8> } }
+pub enum IStep { Session, BottomUp, /// Bottom-up build that is told about the same-bytes twin of every changed resource (another type) instead of the resource itself.
+  BottomUpTwin, ChangeT { id: u8, val: Option<u8> }, ChangeA { id: u8, val: Option<u8> }, ChangeB { id: u8, val: Option<u8> }, ChangeZ { which: u8, val: Option<u8> } }
 
 #[derive(Clone, Debug, Serialize, Deserialize, PartialEq, Eq, Hash)]
 pub struct ICase { pub specs: Vec<Spec>, pub steps: Vec<IStep> }
@@ -195,6 +196,8 @@ pub fn check(case: &ICase, stats: &mut Stats) -> CheckResult {
   let mut changed: Vec<(u8, u8)> = vec![];
   // what each distinct key saw at its last execution
   let mut seen: BTreeMap<Spec, Option<u8>> = BTreeMap::new();
+  // value of each resource a key read at its last execution
+  let mut seen_res: BTreeMap<(Spec, (u8, u8)), Option<u8>> = BTreeMap::new();
   let mut root_seen: Option<Vec<(u8, u8, Option<u8>)>> = None;
   let distinct: BTreeSet<Spec> = specs.iter().cloned().collect();
   let colliding = distinct.iter().any(|x| distinct.iter().any(|y| x.id == y.id && x.fam != y.fam));
@@ -231,19 +234,39 @@ pub fn check(case: &ICase, stats: &mut Stats) -> CheckResult {
         let o2 = pie.resource_state_mut::<RZ2>().get_global_map_mut().get(&RZ2).copied();
         if [o1, o2] != rz { return Err(Failure::new(format!("step {}: after changing the zero-sized resource #{} the two zero-sized resources hold {:?}, expected {:?}", i, w, [o1, o2], rz))); }
       }
-      IStep::Session | IStep::BottomUp => {
+      IStep::Session | IStep::BottomUp | IStep::BottomUpTwin => {
         EXECS.with(|e| e.borrow_mut().clear());
         let out = {
           let mut session = pie.new_session();
-          if matches!(st, IStep::BottomUp) {
+          if !matches!(st, IStep::Session) {
             stats.class("bottom_up_step");
-            let mut bu = session.create_bottom_up_build();
-            for (ty, id) in &changed {
-              match ty { 0 => bu.schedule_tasks_affected_by(&RA(*id)), 1 => bu.schedule_tasks_affected_by(&RB(*id)), 2 => bu.schedule_tasks_affected_by(&RZ1), 3 => bu.schedule_tasks_affected_by(&RZ2), _ => bu.schedule_tasks_affected_by(&TR(*id)) }
+            // What is reported: the changed resources themselves, or their twins of another type with the same bytes.
+            let twin = matches!(st, IStep::BottomUpTwin);
+            let reported: Vec<(u8, u8)> = changed.iter().map(|(ty, id)| if twin { (match ty { 0 => 1, 1 => 0, 2 => 3, 3 => 2, _ => 0 }, *id) } else { (*ty, *id) }).collect();
+            if twin && !reported.is_empty() { stats.class("bottom_up_step_reporting_same_bytes_twins"); }
+            {
+              let mut bu = session.create_bottom_up_build();
+              for (ty, id) in &reported {
+                match ty { 0 => bu.schedule_tasks_affected_by(&RA(*id)), 1 => bu.schedule_tasks_affected_by(&RB(*id)), 2 => bu.schedule_tasks_affected_by(&RZ1), 3 => bu.schedule_tasks_affected_by(&RZ2), _ => bu.schedule_tasks_affected_by(&TR(*id)) }
+              }
+              bu.update_affected_tasks();
             }
-            bu.update_affected_tasks();
+            // The bottom-up build itself executes exactly the known tasks that read a *reported* resource whose value
+            // differs from what they saw - never a task whose resource merely has the same bytes as a reported one.
+            let reads = |s: &Spec| -> Vec<(u8, u8)> { match s.base() { 0 => vec![(0, s.id)], 1 => vec![(1, s.id)], 2 => vec![(2, 0)], 3 => vec![(3, 0)], 5 => vec![(4, s.id)], _ => vec![(0, s.id), (1, s.id), (2, 0), (3, 0)] } };
+            let now = |r: &(u8, u8)| -> Option<u8> { match r.0 { 0 => ra.get(&r.1).copied(), 1 => rb.get(&r.1).copied(), 2 => rz[0], 3 => rz[1], _ => rt.get(&r.1).copied() } };
+            let mut want_bu: Vec<Spec> = distinct.iter().cloned().filter(|s| seen.contains_key(s) && reads(s).iter().any(|r| reported.contains(r) && seen_res.get(&(*s, *r)).copied().flatten() != now(r))).collect();
+            want_bu.sort();
+            let mut got_bu = EXECS.with(|e| e.borrow().clone());
+            got_bu.sort();
+            if got_bu != want_bu {
+              return Err(Failure::new(format!("step {}: the bottom-up build told about {:?} executed {:?}, but the known tasks reading a reported resource that changed are {:?}", i, reported, got_bu, want_bu)));
+            }
           }
-          session.require(&Root(specs.clone()))
+          // After an (intentionally) incomplete twin report the root may have been rebuilt from outputs the bottom-up
+          // build rightly considered unaffected; the top-down require therefore runs in a new session, which validates
+          // everything.
+          if matches!(st, IStep::BottomUpTwin) { drop(session); pie.new_session().require(&Root(specs.clone())) } else { session.require(&Root(specs.clone())) }
         };
         changed.clear();
         let mut execs = EXECS.with(|e| e.borrow().clone());
@@ -262,7 +285,11 @@ pub fn check(case: &ICase, stats: &mut Stats) -> CheckResult {
         if first_time || any_output_change {
           for s in &distinct {
             let need = match seen.get(s) { None => true, Some(v) => *v != cur(s) };
-            if need { want_exec.push(*s); seen.insert(*s, cur(s)); }
+            if need {
+              want_exec.push(*s); seen.insert(*s, cur(s));
+              let rs: Vec<(u8, u8)> = match s.base() { 0 => vec![(0, s.id)], 1 => vec![(1, s.id)], 2 => vec![(2, 0)], 3 => vec![(3, 0)], 5 => vec![(4, s.id)], _ => vec![(0, s.id), (1, s.id), (2, 0), (3, 0)] };
+              for r in rs { let v = match r.0 { 0 => ra.get(&r.1).copied(), 1 => rb.get(&r.1).copied(), 2 => rz[0], 3 => rz[1], _ => rt.get(&r.1).copied() }; seen_res.insert((*s, r), v); }
+            }
           }
         }
         want_exec.sort();
@@ -286,6 +313,7 @@ fn istep() -> impl Strategy<Value=IStep> {
   prop_oneof![
     3 => Just(IStep::Session),
     2 => Just(IStep::BottomUp),
+    1 => Just(IStep::BottomUpTwin),
     2 => (0u8..3, proptest::option::of(0u8..3)).prop_map(|(id, val)| IStep::ChangeA { id, val }),
     2 => (0u8..3, proptest::option::of(0u8..3)).prop_map(|(id, val)| IStep::ChangeB { id, val }),
     2 => (0u8..2, proptest::option::of(0u8..3)).prop_map(|(which, val)| IStep::ChangeZ { which, val }),
